@@ -74,6 +74,15 @@ pub fn run(_args: &[String]) {
                     Err(m) => classify(&m, &want),
                 }
             }
+            "lgetmut" => {
+                let mut v = ints(p[0]);
+                let i: i64 = p[1].parse().expect("i");
+                let want = format!("IndexError: index {} out of range for list of length {}", i, v.len());
+                match catch(|| *incan_stdlib::collections::list_get_mut(&mut v, i)) {
+                    Ok(r) => format!("0 {}", r),
+                    Err(m) => classify(&m, &want),
+                }
+            }
             "sidx" => {
                 let t = text(p[0]);
                 let i: i64 = p[1].parse().expect("i");
@@ -125,6 +134,7 @@ pub fn run(_args: &[String]) {
                 }
             }
             "parse" => parse_shape(rest),
+            "emit" => emit_shape(rest),
             _ => "bad-op".into(),
         }
     });
@@ -162,6 +172,58 @@ fn parse_shape(inner: &str) -> String {
             }
         }
         "ERR shape".to_string()
+    });
+    r.unwrap_or_else(|m| format!("PANIC {}", m))
+}
+
+/// Emitted Rust for an indexing/slicing/range construct of the source language:
+/// `emit idx <recv> <inner>` (v = recv[inner]), `emit set <recv> <inner>` (recv[inner] = 7),
+/// `emit range <args>` (for q in range(args)). Whitespace-free text of the relevant expression.
+fn emit_shape(rest: &str) -> String {
+    let (kind, rest) = rest.split_once(' ').unwrap_or((rest, ""));
+    let body = match kind {
+        "idx" => {
+            let (recv, inner) = rest.split_once(' ').unwrap_or((rest, ""));
+            format!("    v = {}[{}]\n", recv, inner)
+        }
+        "set" => {
+            let (recv, inner) = rest.split_once(' ').unwrap_or((rest, ""));
+            format!("    mut ys = xs\n    {}[{}] = 7\n", recv, inner)
+        }
+        "range" => format!("    for q in range({}):\n        pass\n", rest),
+        _ => return "bad-kind".into(),
+    };
+    let src = format!("def f(s: str, xs: List[int], i: int, j: int, k: int) -> None:\n{}", body);
+    let r = catch(|| {
+        let tokens = match incan_syntax::lexer::lex(&src) {
+            Ok(t) => t,
+            Err(_) => return "ERR lex".to_string(),
+        };
+        let prog = match incan_syntax::parser::parse(&tokens) {
+            Ok(p) => p,
+            Err(_) => return "ERR parse".to_string(),
+        };
+        match incan::backend::ir::IrCodegen::new().try_generate(&prog) {
+            Ok(text) => {
+                let flat: String = text.split_whitespace().collect::<Vec<_>>().join("");
+                let (start, end) = match kind {
+                    "idx" => ("letv=", ";"),
+                    "set" => ("letmutys=xs;", "=7;"),
+                    _ => ("forqin", "{"),
+                };
+                match flat.find(start) {
+                    Some(a) => {
+                        let tail = &flat[a + start.len()..];
+                        match tail.find(end) {
+                            Some(b) => format!("OK {}", &tail[..b]),
+                            None => "ERR shape".to_string(),
+                        }
+                    }
+                    None => "ERR shape".to_string(),
+                }
+            }
+            Err(e) => format!("ERR gen {}", e).replace('\n', " "),
+        }
     });
     r.unwrap_or_else(|m| format!("PANIC {}", m))
 }
